@@ -52,6 +52,7 @@ type c01Case struct {
 	Meta         [][2]string   `json:"meta,omitempty"`
 	Path         string        `json:"path"` // put | put-md5 | post | copy | api
 	Overwrite    bool          `json:"overwrite,omitempty"`
+	CopySelf     bool          `json:"copySelf,omitempty"` // path copy: the destination is the source key itself
 	Frag         s3x.Frag      `json:"frag,omitempty"`
 }
 
@@ -169,8 +170,10 @@ func c01Check(cs c01Case) (ds []disc) {
 			fail("put-etag", "PUT ETag %s want %s", got, et)
 		}
 		if cs.Path == "copy" {
-			readKey = c01CopyDest(key)
-			cleanup = append(cleanup, readKey)
+			if !cs.CopySelf {
+				readKey = c01CopyDest(key)
+				cleanup = append(cleanup, readKey)
+			}
 			// the copy request carries metadata of its own: the destination gets it on top of the
 			// source's, the source must keep exactly what its PUT sent
 			r := s3x.Do(st.Handler, &s3x.Req{Method: "PUT", Path: "/bk0/" + readKey, Header: s3x.H("X-Amz-Copy-Source", "/bk0/"+url.QueryEscape(key),
@@ -187,20 +190,22 @@ func c01Check(cs c01Case) (ds []disc) {
 			if src.Status != 200 || !bytes.Equal(src.Body, body) || src.Header.Get("ETag") != et {
 				fail("copy-changed-source", "after the copy the source reads %d, %d bytes, ETag %s", src.Status, len(src.Body), src.Header.Get("ETag"))
 			}
-			if src.Header.Get("X-Amz-Meta-Copy-Only") != "" {
-				fail("copy-changed-source-metadata", "after the copy the source carries X-Amz-Meta-Copy-Only, a header only the copy request sent")
-			}
-			sentCD := ""
-			for _, kv := range cs.Meta {
-				if got := src.Header.Get(kv[0]); got != kv[1] {
-					fail("copy-changed-source-metadata", "after the copy the source's %s is %q, its PUT sent %q", kv[0], got, kv[1])
+			if !cs.CopySelf {
+				if src.Header.Get("X-Amz-Meta-Copy-Only") != "" {
+					fail("copy-changed-source-metadata", "after the copy the source carries X-Amz-Meta-Copy-Only, a header only the copy request sent")
 				}
-				if strings.EqualFold(kv[0], "Content-Disposition") {
-					sentCD = kv[1]
+				sentCD := ""
+				for _, kv := range cs.Meta {
+					if got := src.Header.Get(kv[0]); got != kv[1] {
+						fail("copy-changed-source-metadata", "after the copy the source's %s is %q, its PUT sent %q", kv[0], got, kv[1])
+					}
+					if strings.EqualFold(kv[0], "Content-Disposition") {
+						sentCD = kv[1]
+					}
 				}
-			}
-			if got := src.Header.Get("Content-Disposition"); got != sentCD && !cs.Overwrite {
-				fail("copy-changed-source-metadata", "after the copy the source's Content-Disposition is %q, its PUT sent %q", got, sentCD)
+				if got := src.Header.Get("Content-Disposition"); got != sentCD && !cs.Overwrite {
+					fail("copy-changed-source-metadata", "after the copy the source's Content-Disposition is %q, its PUT sent %q", got, sentCD)
+				}
 			}
 			// the destination: overrides win, the rest is inherited (checked below through metaSent)
 			var inherited [][2]string
@@ -524,7 +529,7 @@ func c01Run(t *testing.T, c *evid.Collector) {
 	kinds := kindsFromEnv(backends.All)
 	one := func(cs c01Case, src string) bool {
 		klen := len(cs.Key)
-		if cs.Path == "copy" {
+		if cs.Path == "copy" && !cs.CopySelf {
 			klen = len(c01CopyDest(cs.Key))
 		}
 		if cs.Backend.IsDir() && klen+33 > 255 && evid.Open("KF-C01-fs-longkey") {
@@ -583,6 +588,14 @@ func c01Run(t *testing.T, c *evid.Collector) {
 				}
 				one(c01Case{Backend: k, IntegrityOff: ioff, Key: k1024, Body: bodySpec{N: 100, Seed: 1}, Path: "put"}, "fixed")
 				one(c01Case{Backend: k, IntegrityOff: ioff, Key: "big", Body: bodySpec{N: 1<<20 + 17, Seed: 7}, Path: "put-md5", Frag: s3x.Frag{Mode: "n", N: 4097}}, "fixed")
+				if !ioff {
+					// beyond any plausible buffering threshold, through every path that moves bytes inside the server
+					big := bodySpec{N: evid.Scale(1<<20+4099, 5<<20+3), Seed: 8}
+					one(c01Case{Backend: k, Key: "dir/big copy", Body: big, Path: "copy", Meta: [][2]string{{"X-Amz-Meta-A", "1"}}}, "fixed")
+					one(c01Case{Backend: k, Key: "dir/big self", Body: big, Path: "copy", CopySelf: true, Meta: [][2]string{{"X-Amz-Meta-A", "1"}}, Overwrite: true}, "fixed")
+					one(c01Case{Backend: k, Key: "dir/big post", Body: big, Path: "post", Frag: s3x.Frag{Mode: "n", N: 65537}}, "fixed")
+					one(c01Case{Backend: k, Key: "dir/big api", Body: big, Path: "api", Overwrite: true}, "fixed")
+				}
 			}
 		}
 	}
@@ -595,7 +608,10 @@ func c01Run(t *testing.T, c *evid.Collector) {
 		cs.Path = rapid.SampledFrom([]string{"put", "put", "put-md5", "post", "copy", "api"}).Draw(rt, "path")
 		cs.Overwrite = rapid.Bool().Draw(rt, "overwrite")
 		cs.Frag = genFrag(rt, len(cs.Body.bytes()))
-		if cs.Path == "copy" && len(c01CopyDest(cs.Key)) > 1024 {
+		if cs.Path == "copy" {
+			cs.CopySelf = rapid.IntRange(0, 3).Draw(rt, "copyself") == 0
+		}
+		if cs.Path == "copy" && !cs.CopySelf && len(c01CopyDest(cs.Key)) > 1024 {
 			cs.Path = "put"
 		}
 		if one(cs, "random") {
